@@ -254,6 +254,31 @@ def parents_deleted(case, io, k, repo, digest):
     return False
 
 
+def deleted_child_of_live_index(case, io, k, repo, digest):
+    """was [digest] deleted by digest before step k while an index that lists it had been pushed to [repo] and not deleted
+    (known finding F52: the deletion only removes the in-memory child entry; re-reading the directory lists it again)?"""
+    parents, deleted = set(), False
+    for j in range(k):
+        st, r = case["steps"][j], io["steps"][j]
+        if st.get("repo") != repo:
+            continue
+        if st["kind"] == "mput" and r.get("status") == 201:
+            d = (r.get("headers") or {}).get("Docker-Content-Digest", [""])[0]
+            if d == digest:
+                deleted = False
+            try:
+                jb = json.loads(st["body"].decode("utf-8"))
+            except Exception:
+                continue
+            if isinstance(jb, dict) and any(isinstance(x, dict) and x.get("digest") == digest for x in (jb.get("manifests") or [])):
+                parents.add(d)
+        elif st["kind"] == "mdel" and r.get("status") == 202:
+            parents.discard(st["arg"])
+            if st["arg"] == digest:
+                deleted = True
+    return deleted and bool(parents)
+
+
 def oracle(ctx, case, io):
     if case["conf"]["store"] == "mem":
         return
@@ -289,9 +314,11 @@ def oracle(ctx, case, io):
                     how = "memory store opened over the directory" if frozen else "new server on the same directory"
                     was_child = (st["kind"] == "mget" and a.get("status") == 200 and b.get("status") == 404
                                  and parents_deleted(case, io, k, st.get("repo"), st.get("arg")))
+                    back = (st["kind"] == "mget" and a.get("status") == 404 and b.get("status") == 200
+                            and deleted_child_of_live_index(case, io, k, st.get("repo"), st.get("arg")))
                     ctx.violation("%s %s/%s answers differently after re-opening (%s): %s" % (st["kind"], st.get("repo"), st.get("arg"), how, str(diff)[:300]),
                                   oracles.hist(case, k, r, before=str(a)[:800], after=str(b)[:800]),
-                                  "C10:reopen-%s%s" % (st["kind"], "-child-of-deleted-index" if was_child else ""))
+                                  "C10:reopen-%s%s" % (st["kind"], "-child-of-deleted-index" if was_child else ("-deleted-child-of-live-index" if back else "")))
                     return
 
 
